@@ -1002,6 +1002,22 @@ func tableWrites(r *rng.R, c *scase, nextR *int) {
 	c.Tags = append(c.Tags, "table-write-while-parked")
 }
 
+// abortsWhileParked: the executors of the target responses of peer 1 are parked on its reservation and do not drain
+// their signal slots; every target gets 2-3 aborts of mixed kinds (the requestor's cancel, the local CancelResponse).
+// A target that is still queued is simply retired by its first abort.
+func abortsWhileParked(r *rng.R, c *scase, targets []int) {
+	for _, t := range targets {
+		for i, n := 0, r.Range(2, 3); i < n; i++ {
+			if r.P(1, 2) {
+				c.Ops = append(c.Ops, op{K: "cancel", P: 1, R: t})
+			} else {
+				c.Ops = append(c.Ops, op{K: "apicancel", R: t, W: "ret"})
+			}
+		}
+	}
+	c.Tags = append(c.Tags, "aborts-while-parked")
+}
+
 // family "site": the allowance of peer 1 is full; one loop-side call site transacts for peer 1
 func genSite(r *rng.R) scase {
 	c := baseCase(r, "resp", "site")
@@ -1042,10 +1058,19 @@ func genSite(r *rng.R) scase {
 		c.Ops = append(c.Ops, setup, o)
 	}
 	c.Probe = probeOp(r, nextR)
-	if c.Stalled && ext == 0 && (site == "unpause" || site == "update-unpause") && r.P(2, 3) {
+	if c.Stalled && ext == 0 && (site == "unpause" || site == "update-unpause") && r.P(3, 4) {
 		// the unpaused request's block does not fit the full allowance: an executor parks on peer 1's reservation
 		c.Ops = append(c.Ops, op{K: "wait", W: "stats", Exp: []int{1, 0, int(c.MaxPeer), setup.Blocks[0]}})
-		tableWrites(r, &c, &nextR)
+		both := r.P(1, 3)
+		if both || r.P(1, 2) {
+			abortsWhileParked(r, &c, []int{rr})
+			c.Probe = probeOp(r, nextR)
+			if both {
+				tableWrites(r, &c, &nextR)
+			}
+		} else {
+			tableWrites(r, &c, &nextR)
+		}
 	}
 	c.Expect = "answered"
 	tagSite := strings.SplitN(site, "-", 2)[0]
@@ -1102,8 +1127,21 @@ func genPool(r *rng.R) scase {
 		c.Tags = append(c.Tags, "updates-not-paused")
 	}
 	c.Probe = probeOp(r, nextR)
-	if c.Stalled && busy < c.Workers && r.P(2, 3) {
-		tableWrites(r, &c, &nextR) // busy executors are parked on peer 1's reservations, one is free
+	if c.Stalled && busy < c.Workers && r.P(3, 4) {
+		// busy executors are parked on peer 1's reservations, one is free
+		both := r.P(1, 3)
+		if both || r.P(1, 2) {
+			var targets []int
+			for i := 0; i < k; i++ {
+				targets = append(targets, 10+i)
+			}
+			abortsWhileParked(r, &c, targets)
+			if both {
+				tableWrites(r, &c, &nextR)
+			}
+		} else {
+			tableWrites(r, &c, &nextR)
+		}
 	}
 	c.Expect = "answered"
 	if c.Stalled && busy >= c.Workers {
@@ -1191,6 +1229,9 @@ func genMix(r *rng.R) scase {
 			}
 		}
 		c.Tags = append(c.Tags, "pending-then-status")
+		if r.P(1, 2) {
+			abortsWhileParked(r, &c, []int{rr})
+		}
 		if r.P(2, 3) {
 			tableWrites(r, &c, &nextR)
 			goto probed
